@@ -96,6 +96,14 @@ def expect_value_error(acc, name, fn):
     try:
         r = fn()
     except ValueError:
+        try:  # the same refused call once more
+            r2 = fn()
+            acc.violation("aes:contract:" + name + ":accepted-on-repeat", f"refused at first, accepted when repeated "
+                                                                          f"(returned {r2!r:.60})", {"contract": name})
+        except ValueError:
+            pass
+        except Exception:
+            pass
         return
     except Exception as e:
         acc.violation("aes:contract:" + name, f"raised {type(e).__name__} instead of ValueError: {e}", {"contract": name})
@@ -160,14 +168,21 @@ def run_shard(spec, acc, ctx):
         for cl in (1, 15, 17, 31, 47):
             expect_value_error(acc, "bad-cipher-length", lambda: cls(key_length=16, cipher_length=cl))
         for kl in KEY_LENGTHS:
-            for ml in (0, 1, 15, 16, 17, 40):
+            for ml in (0, 1, 15, 16, 17, 40, 239, 240, 255, 256, 257, 272, 1000, 4096, 65536, 65537):
                 cl = 16 + 16 * (ml // 16 + 1)
                 ske = cls(key_length=kl, message_length=ml, cipher_length=cl)
                 key = rng.randbytes(kl)
                 m = rng.randbytes(ml)
-                c = ske.Encrypt(key, m)
                 acc.count("contract.positive")
-                if len(c) != cl or ske.Decrypt(key, c) != m:
+                try:
+                    c = ske.Encrypt(key, m)
+                    back = ske.Decrypt(key, c)
+                except Exception as e:
+                    acc.violation("aes:declared-lengths:raised",
+                                  f"an instance declared with message_length={ml}, cipher_length={cl} refused inputs of "
+                                  f"exactly those lengths: {type(e).__name__}: {e}", {"key_length": kl, "message_length": ml})
+                    continue
+                if len(c) != cl or back != m:
                     acc.violation("aes:declared-lengths", "declared-length instance does not round-trip",
                                   {"key_length": kl, "message_length": ml})
                 for d in (-1, 1):
